@@ -347,7 +347,7 @@ def one_case(acc, dname, msgtype, pseed, klass, pick, with_header, perm=None, ex
             return None
         entries, desc, path = r
         nested = len(path) > 0
-    full = (header_entries(ref, msgtype, groups=(with_header == "groups")) if with_header else []) + entries + ([("f", "10", "123")] if with_header else [])
+    full = (header_entries(ref, msgtype, groups=(with_header == "groups")) if with_header else []) + entries + ([("f", "10", ("123", "000", "007", "255")[pseed % 4])] if with_header else [])
     try:
         msg = build(msgtype, full)
     except Exception as e:
